@@ -85,6 +85,9 @@ func TestC10(t *testing.T) {
 		d.w.Close()
 	}
 
+	// ---- concurrent pairs through the gate (see conc.go)
+	concurrentPairs(t, r)
+
 	// ---- thorough: every call index of the (first faultable) operation of each corpus scenario
 	{
 		for _, c := range corpus {
@@ -198,4 +201,116 @@ func TestC10(t *testing.T) {
 		d.w.Close()
 	}
 	r.Finish("histories of 3-12 API calls (create/remove/dissociate/realloc/replace/set-node/add-node/remove-node) over 2 pods x 3 nodes on the real Calcium with at most one injected fault; corpus of fixed fault scenarios first; non-trivial = a fault was hit or a call returned an error")
+}
+
+// concurrentPairs: two operations on workloads in different pods run concurrently, alternating call by call;
+// the observation is emitted as the sequential history A;B (Interleave.v: they commute) next to its sequential twin.
+func concurrentPairs(t *testing.T, r *vh.Run) {
+	scs := []struct {
+		name    string
+		mk      func(idA, idB string, nodeB int) (Op, Op)
+		fault   *FaultSpec
+		faultOn int
+	}{
+		{"realloc-realloc", func(a, b string, nb int) (Op, Op) {
+			return Op{Kind: "realloc", IDs: []string{a}, CPU: 50, Mem: 100}, Op{Kind: "realloc", IDs: []string{b}, CPU: 100, Mem: 200}
+		}, nil, -1},
+		{"realloc-fails-dissociate", func(a, b string, nb int) (Op, Op) {
+			return Op{Kind: "realloc", IDs: []string{a}, CPU: 50, Mem: 100}, Op{Kind: "dissociate", IDs: []string{b}}
+		}, &FaultSpec{Method: "UpdateWorkload", Target: "*", Ord: 0}, 0},
+		{"remove-setnode", func(a, b string, nb int) (Op, Op) {
+			return Op{Kind: "remove", IDs: []string{a}, Force: true}, Op{Kind: "setnode", Node: nb, SetMem: true, Delta: true, Mem: 500}
+		}, nil, -1},
+		{"dissociate-remove-fails", func(a, b string, nb int) (Op, Op) {
+			return Op{Kind: "dissociate", IDs: []string{a}}, Op{Kind: "remove", IDs: []string{b}, Force: true}
+		}, &FaultSpec{Method: "VirtualizationRemove", Target: "*", Ord: 0}, 1},
+	}
+	for _, s := range scs {
+		build := func() (*driver, *history) {
+			d := newDriver(t, r.Rng, true)
+			h := &history{Strict: true}
+			d.setup(h, 2, 1, 1000) // one node per pod: the placement is deterministic, twin and concurrent world agree
+			for _, pod := range []int{0, 1} {
+				d.opi++
+				h.Steps = append(h.Steps, d.run(Op{Kind: "create", Opi: d.opi, Pod: pod, Count: 1, CPU: 50, Mem: 100}, nil))
+			}
+			return d, h
+		}
+		pick := func(d *driver) (string, string, int, bool) {
+			idA, idB, nodeB := "", "", -1
+			for _, wl := range d.liveList() {
+				if wl.Pod == podName(0) {
+					idA = wl.Canon
+				}
+				if wl.Pod == podName(1) {
+					idB, nodeB = wl.Canon, num(wl.Node)
+				}
+			}
+			return idA, idB, nodeB, idA != "" && idB != ""
+		}
+		// the sequential twin
+		d1, h1 := build()
+		idA, idB, nodeB, ok := pick(d1)
+		if !ok {
+			r.Count("conc-setup-failed")
+			d1.w.Close()
+			continue
+		}
+		a, b := s.mk(idA, idB, nodeB)
+		d1.opi++
+		a.Opi = d1.opi
+		d1.opi++
+		b.Opi = d1.opi
+		var fa, fb *FaultSpec
+		if s.fault != nil {
+			ff := *s.fault
+			if s.faultOn == 0 {
+				fa = &ff
+			} else {
+				fb = &ff
+			}
+		}
+		stA := d1.run(a, fa)
+		if stA.Hit == "" {
+			stA.Fault = nil
+		}
+		stB := d1.run(b, fb)
+		if stB.Hit == "" {
+			stB.Fault = nil
+		}
+		nsetup := len(h1.Steps)
+		h1.Steps = append(h1.Steps, stA, stB)
+		emit(r, h1, map[string]any{"corpus": "conc-twin-" + s.name})
+		d1.w.Close()
+
+		// the concurrent run
+		d2, h2 := build()
+		if len(h2.Steps) != nsetup || h2.Steps[nsetup-1].SnapCoq != h1.Steps[nsetup-1].SnapCoq {
+			r.Count("conc-setup-differs")
+			d2.w.Close()
+			continue
+		}
+		d2.opi += 2
+		oa, ob, ls, unowned := d2.runPair(concPair{name: s.name, a: a, b: b, fault: s.fault, faultOn: s.faultOn})
+		oa.Snap, oa.SnapCoq = stA.Snap, stA.SnapCoq
+		h2.Steps = append(h2.Steps, oa, ob)
+		emit(r, h2, map[string]any{"corpus": "conc-" + s.name, "concurrent": true})
+		r.Count("concurrent-pair")
+		sw := ls.switches / 4 * 4
+		if sw > 12 {
+			sw = 12
+		}
+		r.Count(fmt.Sprintf("conc-switches>=%d", sw))
+		if len(unowned) > 0 {
+			r.Count("conc-unowned-calls")
+			t.Logf("concurrent pair %s: %d calls not attributed, e.g. %s/%s/%s", s.name, len(unowned), unowned[0].Party, unowned[0].Method, unowned[0].Target)
+		}
+		if ob.SnapCoq != stB.SnapCoq {
+			t.Errorf("concurrent pair %s: the final state differs from the sequential history's\n conc: %s\n seq:  %s", s.name, ob.SnapCoq, stB.SnapCoq)
+		}
+		if oa.Err != stA.Err || ob.Err != stB.Err {
+			t.Errorf("concurrent pair %s: errors differ: conc (%d,%d) seq (%d,%d)", s.name, oa.Err, ob.Err, stA.Err, stB.Err)
+		}
+		d2.w.Close()
+	}
 }
